@@ -69,13 +69,15 @@ func generate(w *mon.W) {
 		case 6:
 			p = namedThenNarrowed(rng)
 		case 9:
-			switch j % 4 {
+			switch j % 5 {
 			case 2:
-				p = functionNamedKeys(j / 4)
+				p = functionNamedKeys(j / 5)
 			case 3:
-				p = sortedThenLimitedRight(j / 4)
+				p = sortedThenLimitedRight(j / 5)
+			case 4:
+				p = constantCondition(j / 5)
 			default:
-				p = renamedKeys(j/4*2 + j%4)
+				p = renamedKeys(j/5*2 + j%5)
 			}
 		case 10:
 			p = manyConditions(rng, 1+j%20)
@@ -108,13 +110,15 @@ func DirectedPipelines(seed int64, n int) []*Pipe {
 		j := i / 10
 		switch i % 10 {
 		case 9:
-			switch j % 4 {
+			switch j % 5 {
 			case 2:
-				out = append(out, functionNamedKeys(j/4))
+				out = append(out, functionNamedKeys(j/5))
 			case 3:
-				out = append(out, sortedThenLimitedRight(j/4))
+				out = append(out, sortedThenLimitedRight(j/5))
+			case 4:
+				out = append(out, constantCondition(j/5))
 			default:
-				out = append(out, renamedKeys(j/4*2+j%4))
+				out = append(out, renamedKeys(j/5*2+j%5))
 			}
 		case 0:
 			out = append(out, twinJoins(rng))
@@ -198,6 +202,34 @@ func sortedThenLimitedRight(form int) *Pipe {
 	}
 	p.Ops = append(p.Ops, &Op{K: "join", Kind: kind, Right: right, Conds: []*E{Name("k")}})
 	p.Ops = append(p.Ops, &Op{K: "project", Cols: []Col{{Name: &Ident{Name: "id"}}, {Name: &Ident{Name: "uid"}}}})
+	return p
+}
+
+// constantCondition: a join whose only condition is a constant (true matches
+// every pair, false and null none), for every kind, on a full, an emptied and
+// a one-row right-hand side.
+func constantCondition(form int) *Pipe {
+	conds := []*E{Name("true"), Name("false"), Name("null"), Paren(Name("true")), Bin("==", Num("1"), Num("1")), Call("not", Name("false"))}
+	rights := []func() *Pipe{
+		func() *Pipe { return &Pipe{Table: Ident{Name: "U"}} },
+		func() *Pipe {
+			return &Pipe{Table: Ident{Name: "U"}, Ops: []*Op{{K: "where", X: Bin("<", Name("uid"), Num("0"))}}}
+		},
+		func() *Pipe { return &Pipe{Table: Ident{Name: "U"}, Ops: []*Op{{K: "take", X: Num("0")}}} },
+		func() *Pipe {
+			return &Pipe{Table: Ident{Name: "U"}, Ops: []*Op{{K: "sort", Terms: []SortTerm{{X: Name("uid"), Dir: "asc"}}}, {K: "take", X: Num("1")}}}
+		},
+	}
+	c := conds[form%len(conds)]
+	v := form / len(conds)
+	kind := []string{"", "inner", "leftouter", "innerunique"}[v%4]
+	p := &Pipe{Table: Ident{Name: "T"}}
+	p.Ops = append(p.Ops, &Op{K: "join", Kind: kind, Right: rights[(v/4)%len(rights)](), Conds: []*E{c}})
+	if (v/16)%2 == 0 {
+		p.Ops = append(p.Ops, &Op{K: "project", Cols: []Col{{Name: &Ident{Name: "id"}}, {Name: &Ident{Name: "uid"}}}})
+	} else {
+		p.Ops = append(p.Ops, &Op{K: "count"})
+	}
 	return p
 }
 
